@@ -17,7 +17,8 @@ Each entry holds a canonical record per delivered tree, read from the raw fields
 shape, taxon label / node label / edge length (repr, so 1 != 1.0) per pre-order node, rooting flag, weight, tree
 label, tree comments and annotations, per-node and per-edge comments / annotations / labels, and the Taxon objects.
 The verdict is an OFFLINE comparison of the log (judge()): the first full route that delivered is the reference;
-for every other entry the first differing clause of the first differing tree is the witness.
+for every other entry each differing clause is reported once, the first tree that shows it being the witness (so a
+known difference in one clause cannot hide a new one in another).
 
   count / order     same number of trees, i-th tree equal to i-th tree (offset routes: the documented slice)
   clauses           shape, taxon-labels, node-labels, lengths, rooting, weight, tree-label, comments, annotations,
@@ -35,15 +36,30 @@ Soundness limits actually implemented
     compared - the iterator has nowhere to put them;
   * the order of annotations parsed from ONE metadata comment is arbitrary in the library (a Python set of
     id-hashed objects): annotations are compared as sorted multisets;
-  * comments / quoted labels never contain line breaks: Python's universal-newline translation makes path= and
-    an open file differ from a string for CR / CRLF *inside* a comment (recorded by a probe, not judged);
+  * generated comments / quoted labels never contain line breaks: Python's universal-newline translation makes
+    path= and an open file differ from a *string* for CR / CRLF inside a comment (recorded by a probe, not judged);
+    the same probe does judge path= against stream=open(path), which are the same file;
+  * a final statement without ';' always ends in an edge length (see _c13_util.newick_body: otherwise the outcome depends
+    on the number of trailing white-space characters, which newline translation changes - a tokenizer matter);
   * numeric taxon tokens are only generated where their meaning cannot depend on what an earlier call left in
     the shared namespace (TRANSLATE tokens, or taxon numbers with a TAXA block);
   * TreeArray comparison only for trees without outdegree-1 nodes, with >= 3 leaves and a distinct taxon on every
     leaf, and only when all trees of the document have one rooting state (else MixedRootingError is documented);
     lengths only when no edge length is missing;
   * return values of read() (number of trees) are recorded, not judged;
-  * all routes raising on a document is agreement (counted as 'all-routes-raised', never a verdict)."""
+  * all routes raising on a document is agreement (counted as 'all-routes-raised', never a verdict);
+  * a matrix is a mapping taxon -> sequence: rows are compared sorted by label (iteration order is the order of the
+    namespace, which legitimately depends on whether a route parsed the TREES blocks before the matrix); when
+    DataSet.get itself cannot read the document there is no matrix to compare with (noted);
+  * offsets are mapped through the block structure the template wrote; if the reference route sees another number
+    of trees (a label-only statement without terminator is silently dropped by every route) offset routes are skipped.
+
+Violation keys:  <route family>|<clause>[|discriminator]|<schema>,  source|<route family>|<form>-vs-<form>|<clause>|<schema>,
+<route family>|re-created-existing-taxa|<schema>,  raised-where-others-deliver|<ExcClass>|<innermost function>|<schema>.
+Directed cases (always first) reproduce the four mechanisms found on the unchanged tree: Tree.get replaces the source's
+tree label by None; the NeXML reader re-creates taxa of a namespace handed in by the client; the NEXUS NTAX limit counts
+taxa that were in a shared namespace before the read (TooManyTaxaError); TreeList.get / DataSet.get build a
+case-insensitive namespace although case_sensitive_taxon_labels=True was requested (ValueError)."""
 import io
 import locale
 import os
@@ -79,14 +95,17 @@ REACH = ["newickreader:NewickReader._parse_tree_statement", "newickreader:Newick
          "basemodel:Deserializable.get_from_stream", "basemodel:Deserializable.get_from_string",
          "basemodel:MultiReadable._read_from", "basemodel:MultiReadable.read_from_path",
          "ioservice:DataYielder.iterate_over_file"]
-MIN_EVENTS = {"tree-compared": (20000, 400000), "route-entry-judged": (8000, 150000),
-              "offset-pair-judged": (1500, 30000), "source-form-compared": (2000, 40000),
-              "taxon-identity-judged": (3000, 60000), "treearray-tree-judged": (300, 6000),
-              "matrix-compared": (300, 6000), "yielder-second-file-judged": (200, 4000),
-              "hook:NewickReader._parse_tree_statement:call": (20000, 400000)}
+MIN_EVENTS = {"tree-compared": (50000, 1000000), "route-entry-judged": (20000, 400000),
+              "offset-pair-judged": (8000, 150000), "source-form-compared": (5000, 100000),
+              "taxon-identity-judged": (20000, 400000), "namespace-growth-judged": (15000, 300000),
+              "treearray-tree-judged": (1500, 30000), "matrix-compared": (800, 15000),
+              "yielder-second-file-judged": (500, 10000), "newline-probe-judged": (25, 25),
+              "hook:NewickReader._parse_tree_statement:call": (60000, 1200000),
+              "hook:NexusTreeDataYielder._yield_from_trees_block:call": (3000, 60000),
+              "hook:_NexmlTreeParser.build_tree:call": (15000, 300000)}
 ASSUMPTIONS = ["documents are text produced by the harness templates; what they mean is never computed by the harness - only "
                "agreement of the routes is judged",
-               "records are read from raw fields (_child_nodes, _edge, _taxon, _annotations, _comments)",
+               "records are read from raw fields (_child_nodes, _edge, taxon, _annotations, comments)",
                "TaxonNamespace.taxon_bitmask is taken as the given taxon->bit map when TreeArray contents are translated"]
 LEVEL_TEXT = ("A driver pushes each generated document through every reading route and source kind of the real library, logging a "
               "canonical record per delivered tree / matrix; an offline checker compares the logs pairwise.")
@@ -126,6 +145,9 @@ D_NEXUS_CHARS = ("#NEXUS\nBEGIN TAXA;\n DIMENSIONS NTAX=3;\n TAXLABELS A B 'C c'
                  " DIMENSIONS NCHAR=4;\n FORMAT DATATYPE=STANDARD SYMBOLS=\"012\" INTERLEAVE;\n MATRIX\n  A 01\n  B 12\n  'C c' 0?\n\n"
                  "  A 2(01)\n  B 10\n  'C c' {12}-\n ;\nEND;\nBEGIN SETS;\n LINK CHARACTERS = second;\n CHARSET cs1 = 1-2 4;\nEND;\n")
 
+D_NEXUS_DATA_BLOCK = ("#NEXUS\nBEGIN DATA;\n DIMENSIONS NTAX=3 NCHAR=4;\n FORMAT DATATYPE=DNA;\n MATRIX\n  A ACGT\n  B ACGA\n  C AC-T\n ;\nEND;\n"
+                      "BEGIN TREES;\n TREE only = [&R] (A,B);\nEND;\n")
+
 DIRECTED = [
     # name, schema, text, blocks, matrices, options, nsmode
     ("tree-get-label", "nexus", D_NEXUS_NAMES, [2], [], {}, "fresh"),
@@ -141,6 +163,12 @@ DIRECTED = [
     ("nexml-shared", "nexml", D_NEXML, [1, 1], [], {}, "shared-empty"),
     ("nexml-shared-prepopulated", "nexml", D_NEXML, [1, 1], [], {}, "shared-prepopulated"),
     ("nexus-unrelated-namespace", "nexus", D_NEXUS_NAMES, [2], [], {}, "shared-unrelated"),
+    ("nexus-data-block-unrelated-namespace", "nexus", D_NEXUS_DATA_BLOCK, [1], ["dna"], {}, "shared-unrelated"),
+    ("nexus-data-block-fresh", "nexus", D_NEXUS_DATA_BLOCK, [1], ["dna"], {}, "fresh"),
+    ("nexus-case-sensitive-fresh", "nexus", D_NEXUS_NAMES, [2], [], {"case_sensitive_taxon_labels": True}, "fresh"),
+    # the NEXUS text converted once by the library's NeXML writer (only a source of text with a <characters> element)
+    ("nexml-chars-shared", "nexml-via-writer", D_NEXUS_DATA_BLOCK, [1], ["dna"], {}, "shared-empty"),
+    ("nexml-chars-fresh", "nexml-via-writer", D_NEXUS_DATA_BLOCK, [1], ["dna"], {}, "fresh"),
     ("nexus-chars", "nexus", D_NEXUS_CHARS, [1], ["dna", "standard"], {}, "fresh"),
     ("nexus-chars-shared", "nexus", D_NEXUS_CHARS, [1], ["dna", "standard"], {}, "shared-empty"),
 ]
@@ -832,7 +860,7 @@ def ascii_safe(text):
 def install_counters(ctx, hooks):
     """call counters on the anchored functions (evidence that the monitors watched the shared statement parser
     being driven by the different front ends)"""
-    from dendropy.dataio import newickreader, nexusreader, nexusyielder, nexmlreader, nexmlyielder, newickyielder
+    from dendropy.dataio import newickreader, nexusreader, nexusyielder, nexmlreader
     hooks.install(newickreader.NewickReader, "_parse_tree_statement", outermost_only=False)
     hooks.install(nexusreader.NexusReader, "_parse_trees_block", outermost_only=False)
     hooks.install(nexusyielder.NexusTreeDataYielder, "_yield_from_trees_block", outermost_only=False)
@@ -879,21 +907,55 @@ def run_document(ctx, doc, options, nsmode, rng, sample=False):
 
 
 def newline_probe(ctx):
-    """recorded, not judged: CR LF inside a comment reaches the object untranslated from a string but translated
-    from a path (universal newlines)."""
+    """Line breaks INSIDE comments and quoted labels.  A path and an already open text file are the same file read
+    through Python's text layer, so every route must deliver identical records from path= and from stream=open(path)
+    (judged).  A string keeps CR / CR LF where a file read translates them to LF: that difference is recorded only."""
     import dendropy
-    text = "[line one\r\nline two](A,B);\r\n"
     tmp = tempfile.mkdtemp(prefix="vf-c13-")
     try:
-        p = os.path.join(tmp, "crlf.tre")
-        with open(p, "w", newline="") as f:
-            f.write(text)
-        a = dendropy.Tree.get(data=text, schema="newick")
-        b = dendropy.Tree.get(path=p, schema="newick")
-        if list(a.comments) != list(b.comments):
-            ctx.note("crlf-inside-comment:string-and-path-differ(universal-newlines)")
-        else:
-            ctx.note("crlf-inside-comment:string-and-path-agree")
+        for nl in ("\r\n", "\r", "\n"):
+            texts = {"newick": "[line one%sline two](A:1,'b%sc':2)[node%scomment]:0;%s[&R](A,'b%sc');%s" % (nl, nl, nl, nl, nl, nl),
+                     "nexus": "#NEXUS%sBEGIN TREES;%s TREE t = [tree%scomment] (A,'b%sc')[x%sy];%sEND;%s" % (nl, nl, nl, nl, nl, nl, nl)}
+            for schema, text in sorted(texts.items()):
+                p = os.path.join(tmp, "nl.%s" % schema)
+                with open(p, "w", newline="") as f:
+                    f.write(text)
+
+                def tl_read(**kw):
+                    x = dendropy.TreeList()
+                    x.read(schema=schema, **kw)
+                    return list(x)
+
+                def ds_read(**kw):
+                    x = dendropy.DataSet()
+                    x.read(schema=schema, **kw)
+                    return [t for tl in x.tree_lists for t in tl]
+                routes = [("Tree.get", lambda **kw: [dendropy.Tree.get(schema=schema, **kw)]),
+                          ("TreeList.get", lambda **kw: list(dendropy.TreeList.get(schema=schema, **kw))),
+                          ("TreeList.read", tl_read),
+                          ("DataSet.get", lambda **kw: [t for tl in dendropy.DataSet.get(schema=schema, **kw).tree_lists for t in tl]),
+                          ("DataSet.read", ds_read)]
+                recs = {}
+                for name, fn in routes:
+                    try:
+                        with open(p, "r") as f:
+                            via_stream = [U.tree_record(t) for t in fn(stream=f)]
+                        via_path = [U.tree_record(t) for t in fn(path=p)]
+                        via_string = [U.tree_record(t) for t in fn(data=text)]
+                    except Exception as x:
+                        ctx.unexpected("newline-probe:%s" % name, x, {"schema": schema, "text": text})
+                        continue
+                    ctx.ev("newline-probe-judged")
+                    diff = [c for a, b in zip(via_path, via_stream) for c in U.CLAUSES if a[c] != b[c]]
+                    if len(via_path) != len(via_stream) or diff:
+                        ctx.violation("source|%s|path-vs-open-file|line-break-inside-comment-or-label|%s" % (name, schema),
+                                      "%s delivers different %s from path= than from the same file opened by the caller"
+                                      % (name, sorted(set(diff)) or "tree counts"),
+                                      {"schema": schema, "text": text, "line_break": repr(nl),
+                                       "path": [U.public(r) for r in via_path][:1], "stream": [U.public(r) for r in via_stream][:1]})
+                    sdiff = [c for a, b in zip(via_path, via_string) for c in U.CLAUSES if a[c] != b[c]]
+                    if sdiff:
+                        ctx.note("line-break-inside-comment:string-and-path-differ(universal-newlines):%s" % repr(nl))
     finally:
         shutil.rmtree(tmp, ignore_errors=True)
 
@@ -919,6 +981,10 @@ def run_case(case, ctx):
     if kind == "directed":
         d = [x for x in DIRECTED if x[0] == case["name"]][0]
         doc = {"schema": d[1], "text": d[2], "blocks": d[3], "matrices": d[4], "features": ["directed:" + d[0]]}
+        if d[1] == "nexml-via-writer":
+            import dendropy
+            doc["schema"] = "nexml"
+            doc["text"] = dendropy.DataSet.get(data=d[2], schema="nexus").as_string(schema="nexml")
         run_document(ctx, doc, d[5], d[6], rng, sample=True)
         return
     if kind == "newline-probe":
